@@ -392,3 +392,25 @@ Theorem C15_redispatch_lookup_fresh : forall sro R0 hs cl cx nm ms m tr2,
             (cont t = [] -> tres t = Some (lookup_all sro (R st1) (cl, lookup_iface cl (fresh_iface m), cx, nm))).
 Proof. exact redispatch_lookup_fresh. Qed.
 Print Assumptions C15_redispatch_lookup_fresh.
+
+(* ---- round 7 ---- *)
+(* regenerated from ViewMethodsMixin.invoke_exception_view and add_route.register_route_request_iface (both were
+   shape pins): exception views are looked up with the COMBINED interface of the request's own request type
+   (C15_redispatch_lookup_fresh is about this key), and a route's request interface is created exactly once *)
+Theorem C15_facts_excview_route : excview_uses_combined = true /\ route_iface_created_once = true.
+Proof. exact facts_excview_route. Qed.
+Print Assumptions C15_facts_excview_route.
+
+Theorem C15_lookup_iface_spec : forall cl rq,
+  lookup_iface cl rq = if N.eqb cl 1 then combined_iface rq else rq.
+Proof. exact lookup_iface_spec. Qed.
+Print Assumptions C15_lookup_iface_spec.
+
+(* a re-initialisation interleaved with a lookup (outside the property's quantifier): with the order of
+   Registry.__init__ -- cache cleared first, registrations dropped afterwards -- a lookup running between the two
+   steps leaves a stale entry; this is why histories re-initialise in idle states only (Example
+   reinit_interleaved_reset_first: the other order is safe on the same schedule) *)
+Theorem C15_reinit_interleaved_refuted :
+  ~ reinit_interleaved_claim (std_lookup Local true) (std_register Swap) [INewLock; IClear Swap; IResetAdapters].
+Proof. exact reinit_interleaved_refuted. Qed.
+Print Assumptions C15_reinit_interleaved_refuted.
